@@ -33,4 +33,15 @@ def Proc.frame (p : Proc) (i : Nat) (f : Frame) : Proc :=
     { global := absorbScheme p.global s'.pushed s.pushed.length,
       sessions := p.sessions.mapIdx (fun j t => if j == i then s' else t) }
 
+/-- the scheme a source denotes for a client configured with `cfg` in process `p` (`PaddingFactory::effective`
+returns the process-wide default once a server has pushed one; `p.global` is that value, and equals `cfg` before) -/
+def Proc.pick (p : Proc) (cfg : Scheme) : Gen.SchemeSource → Scheme
+  | .configured => cfg
+  | .effective => p.global
+
+/-- `create_new_session`: the scheme that shapes the preamble and the scheme the session is created with, as the
+code selects them (`Gen.preambleSchemeFrom`, `Gen.sessionSchemeFrom`, regenerated from client.rs) -/
+def Proc.dialSchemes (p : Proc) (cfg : Scheme) : Scheme × Scheme :=
+  (p.pick cfg Gen.preambleSchemeFrom, p.pick cfg Gen.sessionSchemeFrom)
+
 end AnyTLS
